@@ -416,6 +416,8 @@ async def run_steps(W: World, steps: list[dict[str, Any]], rng: random.Random | 
                 raise
         elif op == "mark":
             W.event("mark", step.get("tag"))
+        elif op == "call":  # python-only step (not JSON): await a harness coroutine function
+            await step["fn"](W)
         elif op == "log":
             fn = {"error": ctx.log_error, "warning": ctx.log_warning, "info": ctx.log_info, "debug": ctx.log_debug}[step["level"]]
             args = tuple(W.log_arg(a) for a in step["args"])
